@@ -148,7 +148,9 @@ namespace occa {
     if (modeMemory == NULL) {
       return 0;
     }
-    return modeMemory->size / modeMemory->dtype_->bytes();
+    // void and none are registered dtypes of zero bytes
+    const udim_t dtypeSize = modeMemory->dtype_->bytes();
+    return (dtypeSize ? (modeMemory->size / dtypeSize) : 0);
   }
 
   udim_t memory::byte_size() const {
